@@ -19,6 +19,12 @@ recognising one spelling of them:
                        override: NAME := VALUE; default: NAME := VALUE only when unset; append: PREV [+ DELIM] + VALUE;
                        prepend: VALUE [+ DELIM + PREV] (delimiter only when PREV is non-empty, DELIM = the delta's
                        (Delimiter, same name) entry or nothing); delimiter: no insert — on every path (always/<arm>)
+Spelling independence (C04_helpers): the per-delta application is a family of ownership variants (apply(&env) =
+apply_owned(env.clone()), delta_family); the entry loop may range over an order-preserving filter / map view of the
+entries nested in a loop over a literal behaviour table that is sorted like the map and never left early (EntryView);
+tested values that merge several arms are re-sliced under the case (Spec.edge_state); a variable may be updated in
+place through `&mut` its stored string (map.entry(k).or_default() / or_insert_with, pushes, mem::take) — what the
+string holds when the entry has been applied is what an insert would have stored (ArmCase.slot).
 Not decided: the resulting byte strings for all value combinations (value level).
 """
 from . import layer_env_common as L
@@ -31,48 +37,7 @@ SPEC_SCOPE = {'All': ['all'], 'Build': ['all', 'build', 'layer_paths_build'], 'L
               'Process': ['all', 'process[scope.process]?']}
 
 
-def rank_table(prog, sl, cmpf):
-    """(rank helper Fn | None, {variant: rank}, cmp is rank(self).cmp(rank(other)), rendering) from the normal form of
-    Ord::cmp: private helpers inlined, `b.cmp(a).reverse()` turned around"""
-    raw = strip(sl.local(cmpf, 0))
-    rv = strip(sl.inline_deep(raw))
-    while rv[0] == 'call' and rv[1].endswith('Ordering::reverse') and len(rv[2]) == 1 and strip(rv[2][0])[0] == 'call' \
-            and strip(rv[2][0])[1].endswith('::cmp') and len(strip(rv[2][0])[2]) == 2:
-        inner = strip(rv[2][0])
-        rv = ('call', inner[1], (inner[2][1], inner[2][0]), inner[3] if len(inner) > 3 else None)
-    shown = vstr(rv)[:160]
-    if not (rv[0] == 'call' and rv[1].endswith('::cmp') and len(rv[2]) == 2):
-        return None, {}, False, shown
-    tables, subjects = [], []
-    for a in rv[2]:
-        a = strip(a)
-        while a[0] == 'cast':
-            a = strip(a[1])
-        if a[0] == 'discr':
-            # the variants compared by their discriminants (derived Ord, `*self as u8`): the rank is the discriminant
-            tables.append({v['name']: v['discr'] for v in prog.adt(L.MB)['variants'] if isinstance(v.get('discr'), int)})
-            subjects.append(strip(a[1]))
-            continue
-        if not (a[0] == 'select' and a[2] == L.MB):
-            return None, {}, False, shown
-        t = {}
-        for names, val in a[3]:
-            val = strip(val)
-            while val[0] == 'cast':
-                val = strip(val[1])
-            for n in names:
-                if val[0] == 'const' and isinstance(val[1], int) and not isinstance(val[1], bool):
-                    t[n] = val[1]
-        tables.append(t)
-        subjects.append(strip(a[1]))
-    good = tables[0] == tables[1] and all(s[0] == 'param' and s[1] == cmpf.path for s in subjects) and \
-        subjects[0][2] == 0 and subjects[1][2] == 1
-    ifn = None
-    for x in walk(raw):
-        if x[0] == 'call' and x[1] in prog.fns and prog.fns[x[1]].kind != 'Closure':
-            ifn = prog.fns[x[1]]
-            break
-    return ifn, tables[0], good, shown
+rank_table = H.rank_table      # (moved to the helpers: the entry loop analysis needs the ranks as well)
 
 
 def run(ctx, rep):
@@ -108,7 +73,7 @@ def run(ctx, rep):
         if variant not in SPEC_SCOPE:
             rep.violated('R1', 'apply/extra/' + str(variant), where, 'unexpected scope arm %s' % variant)
     rv = strip(sl.local(f, 0))
-    rev = any(x[0] == 'call' and x[1].split('::')[-1].lower() in H.ORDER_CHANGING for x in walk(sl.inline_deep(rv, keep=(L.DAPPLY,)))) or \
+    rev = any(x[0] == 'call' and x[1].split('::')[-1].lower() in H.ORDER_CHANGING for x in walk(sl.inline_deep(rv, keep=tuple(sorted(H.delta_family(prog)[1]) or (L.DAPPLY,))))) or \
         bool(H.order_changing_calls(prog, f))
     folded = all(table.get(v) is not None for v in SPEC_SCOPE)
     rep.check(folded and not rev, 'R1', 'apply/fold', where,
